@@ -794,3 +794,437 @@ def rule_compound(ctx):
             r.ok(construct=fn, sample='%s built from dot/solve/+/* only' % fn)
     r.floor = 10
     return r
+
+
+# ------------------------------------------------------------- C10.dispatch
+EQUIV = {   # hand-written dispatcher -> library functions accepted in its plain-array branch (reason)
+    'logdet': {'slogdet'},           # log|det| = slogdet(x)[1]
+    'qr_full': {'qr'},               # scipy.linalg.qr is the full QR
+    'symvec': {'symvec'}, 'vecsym': {'vecsym'},
+    'botched_clip': {'clip'},        # argument order permuted on purpose
+    'dpm_hyp1f1': {'mpmath_hyp1f1'}, 'dpm_hyp2f0': {'mpmath_hyp2f0'},
+}
+HAND = {
+    'algopy.globalfuncs': ['sum', 'real', 'imag', 'prod', 'logdet', 'zeros', 'ones', 'zeros_like', 'ones_like', 'dot', 'outer', 'symvec', 'vecsym'],
+    'algopy.linalg.linalg': ['qr_full', 'eigh1'],
+    'algopy.fft.fft': ['fft', 'ifft'],
+    'algopy.special.special': ['hyperu', 'botched_clip', 'polygamma', 'psi', 'gammaln', 'erf', 'erfi', 'dawsn', 'logit', 'expit'],
+}
+NOT_FORWARDED_OK = {
+    ('zeros', 'order'): 'the UTPM branch allocates (D,P)+shape itself; memory order is irrelevant for the coefficients',
+    ('ones', 'order'): 'same as zeros',
+}
+
+
+def rule_dispatch(ctx):
+    r = RuleResult('C10.dispatch', 'generated dispatchers: the fallback NumPy/SciPy function of the same name exists, UTPM defines the '
+                                   'method, and both branches receive *args, **kwargs unchanged; hand-written dispatchers: every '
+                                   'delegating return calls the function/method of the dispatcher\'s own name and forwards every parameter')
+    m = ctx.model
+    try:
+        import importlib
+        libs = {'numpy': importlib.import_module('numpy'), 'numpy.linalg': importlib.import_module('numpy.linalg'),
+                'scipy.linalg': importlib.import_module('scipy.linalg')}
+    except Exception:
+        libs = {}
+    for fi in m.generated:
+        name = fi.name
+        ns = getattr(fi, 'gen_namespace', None)
+        probs = []
+        if libs and ns in libs and not hasattr(libs[ns], name):
+            nd = libs['numpy'].ndarray if 'numpy' in libs else None
+            if nd is not None and hasattr(nd, name):
+                r.note('generated %s: fallback %s.%s does not exist; arrays are served by ndarray.%s through the class dispatch, '
+                       'python scalars/lists would raise AttributeError' % (name, ns, name, name))
+            else:
+                probs.append('fallback %s.%s does not exist in the installed library' % (ns, name))
+        if m.lookup_method('UTPM', name) is None and name != 'pow':
+            probs.append('UTPM defines no method %s' % name)
+        rets = [n for n in walk_no_nested(fi.node) if isinstance(n, ast.Return)]
+        for ret in rets:
+            c = ret.value
+            if not isinstance(c, ast.Call):
+                probs.append('return is not a call: %s' % norm(ret))
+                continue
+            star = [a for a in c.args if isinstance(a, ast.Starred) and norm(a.value) == 'args']
+            kw = [k for k in c.keywords if k.arg is None and norm(k.value) == 'kwargs']
+            if len(star) != 1 or len(kw) != 1 or len(c.args) != 1 or len(c.keywords) != 1:
+                probs.append('arguments are not forwarded as (*args, **kwargs): %s' % norm(c)[:80])
+            consts = [x.value for x in ast.walk(c.func) if isinstance(x, ast.Constant) and isinstance(x.value, str)]
+            if consts != [name]:
+                probs.append('dispatch target name %s differs from the function name %s' % (consts, name))
+        tests = [n for n in walk_no_nested(fi.node) if isinstance(n, ast.Call) and isinstance(n.func, ast.Name) and n.func.id == 'hasattr']
+        if not tests or not all(isinstance(t.args[1], ast.Constant) and t.args[1].value == name for t in tests):
+            probs.append('class dispatch does not test for the attribute %r' % name)
+        brk = [n for n in walk_no_nested(fi.node) if isinstance(n, ast.Break)]
+        if not brk:
+            probs.append('the argument scan does not stop at the first argument providing the method')
+        if probs:
+            for pm in probs:
+                r.bad(Finding('C10.dispatch', _f(fi), 'gen:%s:%s' % (name, pm[:40]), 'generated dispatcher %s: %s' % (name, pm), fi.file, fi.lineno))
+        else:
+            r.ok(construct='gen:' + name, nontrivial=True, sample='generated %s: class method if an argument provides it, else %s.%s; (*args, **kwargs) forwarded' % (name, ns, name))
+    for modname, names in sorted(HAND.items()):
+        mi = m.module(modname)
+        for name in names:
+            fi = mi.functions.get(name)
+            if fi is None:
+                r.unknown(modname + ':' + name, 'dispatcher vanished')
+                continue
+            params = fi.params
+            rets = [n for n in walk_no_nested(fi.node) if isinstance(n, ast.Return) and isinstance(n.value, (ast.Call, ast.Subscript))]
+            n_ok = 0
+            for ret in rets:
+                c = ret.value
+                if isinstance(c, ast.Subscript):
+                    c = c.value
+                if not isinstance(c, ast.Call):
+                    continue
+                d = dotted_name(c.func)
+                if d is None:
+                    continue
+                last = d.split('.')[-1]
+                head = d.split('.')[0]
+                delegating = head in ('numpy', 'scipy', 'UTPM', 'Function', 'utils', 'algopy') or '.__class__.' in d or head in params
+                if d in ('UTPM', 'Function') or d.endswith('.__class__'):
+                    delegating = False      # constructor call, not a delegation
+                if not delegating:
+                    continue
+                if last == 'pushforward':
+                    continue
+                probs = []
+                accepted = {name} | EQUIV.get(name, set())
+                if last not in accepted:
+                    if head in ('numpy', 'scipy') and name in ('zeros_like', 'ones_like'):
+                        pass
+                    else:
+                        probs.append('delegates to `%s`, expected a function/method named %s' % (d, sorted(accepted)))
+                used = {x.id for x in ast.walk(c) if isinstance(x, ast.Name)}
+                for p in params:
+                    if p not in used and (name, p) not in NOT_FORWARDED_OK:
+                        probs.append('parameter `%s` is not forwarded in `%s`' % (p, norm(c)[:70]))
+                if probs:
+                    for pm in probs:
+                        r.bad(Finding('C10.dispatch', _f(fi), '%s:%s' % (name, pm[:60]), 'dispatcher %s: %s' % (name, pm), fi.file, ret.lineno))
+                else:
+                    n_ok += 1
+                    r.ok(construct='%s@%d' % (name, ret.lineno), sample='%s: `%s`' % (name, norm(ret)[:90]))
+            if n_ok == 0 and not any(f.construct.startswith(name + ':') for f in r.findings):
+                r.note('%s: no delegating return recognised' % name)
+    r.floor = 80
+    return r
+
+
+# --------------------------------------------------------------------- C13
+def _tuple_prefixes(fi):
+    """tuple literals added in front of the user's index `sl`"""
+    out = []
+    for n in walk_no_nested(fi.node):
+        if isinstance(n, ast.BinOp) and isinstance(n.op, ast.Add) and isinstance(n.left, ast.Tuple) and isinstance(n.right, ast.Name) and n.right.id == 'sl':
+            out.append(n)
+    return out
+
+
+def rule_index(ctx):
+    r = RuleResult('C13.index', '__getitem__ indexes data with exactly (slice(None), slice(None)) + sl; __setitem__ stores a polynomial into the '
+                                'same selection and a constant into (0, slice(None)) + sl after clearing (slice(1, None), slice(None)) + sl')
+    m = ctx.model
+    g = m.lookup_method('UTPM', '__getitem__')
+    s_ = m.lookup_method('UTPM', '__setitem__')
+    if g is None or s_ is None:
+        r.unknown('UTPM.__getitem__', 'vanished')
+        return r
+    pre = _tuple_prefixes(g)
+    if len(pre) == 1 and norm(pre[0].left) == '(slice(None), slice(None))':
+        r.ok(construct='getitem', sample='__getitem__: `%s`' % norm(pre[0]))
+    else:
+        r.bad(Finding('C13.index', _f(g), 'prefix:%s' % [norm(p.left) for p in pre], '__getitem__ does not prepend exactly (slice(None), slice(None)) to the '
+                      'index: %s' % [norm(p) for p in pre], g.file, g.lineno))
+    pre = _tuple_prefixes(s_)
+    got = sorted(norm(p.left) for p in pre)
+    want = sorted(['(slice(None), slice(None))', '(slice(1, None), slice(None))', '(0, slice(None))'])
+    if got == want:
+        r.ok(construct='setitem', nontrivial=True, sample='__setitem__ prefixes: %s' % got)
+        # roles: the slice(1,None) selection is set to 0, the 0 selection to rhs
+        for p in pre:
+            par = _parent_call(s_, p)
+            txt = norm(par) if par is not None else ''
+            if norm(p.left) == '(slice(1, None), slice(None))':
+                if par is None or not (len(par.args) == 2 and isinstance(par.args[1], ast.Constant) and par.args[1].value == 0):
+                    r.bad(Finding('C13.index', _f(s_), 'clear', 'higher coefficients are not cleared with 0: `%s`' % txt, s_.file, p.lineno))
+                else:
+                    r.ok(construct='setitem:clear', sample='`%s`' % txt)
+            if norm(p.left) == '(0, slice(None))':
+                if par is None or not (len(par.args) == 2 and norm(par.args[1]) == 'rhs'):
+                    r.bad(Finding('C13.index', _f(s_), 'const', 'the constant is not stored into coefficient 0: `%s`' % txt, s_.file, p.lineno))
+                else:
+                    r.ok(construct='setitem:const', sample='`%s`' % txt)
+    else:
+        r.bad(Finding('C13.index', _f(s_), 'prefix:%s' % got, '__setitem__ index prefixes are %s, expected %s' % (got, want), s_.file, s_.lineno))
+    r.floor = 4
+    return r
+
+
+def _parent_call(fi, node):
+    for n in walk_no_nested(fi.node):
+        if isinstance(n, ast.Call) and any(a is node for a in n.args):
+            return n
+    return None
+
+
+VIEW_METHODS = ['__getitem__', 'get_transpose', 'transpose', 'reshape', 'real', 'imag', 'get_flat', 'coeff_op', 'FtoJT']
+COPY_METHODS = ['conjugate', 'neg', 'tril', 'triu', 'tile', 'diag', 'sum', 'trace', 'clone', 'copy', 'zeros_like', 'ones_like', '__abs__', 'prod']
+
+
+def rule_view(ctx):
+    r = RuleResult('C13.view', 'view operations return an object whose data derives from the parent\'s data without any copy on the '
+                               'path (E1: returned roots contain the argument and no fresh allocation); value operations return fresh data')
+    m = ctx.model
+    eff = ctx.effects
+    for name in VIEW_METHODS:
+        fi = m.lookup_method('UTPM', name)
+        if fi is None:
+            r.unknown('UTPM.' + name, 'vanished')
+            continue
+        ret = flat(eff.sums[fi].ret)
+        src = fi.params[0] if fi.kind != 'classmethod' else fi.params[1]
+        if ('p', src) in ret and not any(x[0] == 'fresh' for x in ret):
+            r.ok(construct=name, nontrivial=True, sample='UTPM.%s returns roots %s' % (name, sorted(ret)))
+        else:
+            r.bad(Finding('C13.view', _f(fi), name, 'UTPM.%s must return a view of its argument but returns %s (a copy breaks writing through the view)'
+                          % (name, sorted(ret)), fi.file, fi.lineno))
+    for name in COPY_METHODS:
+        fi = m.lookup_method('UTPM', name)
+        if fi is None:
+            continue
+        ret = flat(eff.sums[fi].ret)
+        if any(x[0] == 'p' for x in ret):
+            r.bad(Finding('C13.view', _f(fi), name, 'UTPM.%s must return fresh data but may return storage of %s' % (name, sorted(x[1] for x in ret if x[0] == 'p')), fi.file, fi.lineno))
+        else:
+            r.ok(construct=name, sample='UTPM.%s returns fresh data' % name)
+    r.floor = 18
+    return r
+
+
+MAPS = {'trace': ('numpy.trace', []), 'tril': ('numpy.tril', ['k']), 'triu': ('numpy.triu', ['k']), 'tile': ('numpy.tile', ['reps']),
+        'fft': ('numpy.fft.fft', ['n', 'axis']), 'ifft': ('numpy.fft.ifft', ['n', 'axis'])}
+
+
+def rule_map(ctx):
+    r = RuleResult('C13.map', 'slice-wise operations apply the NumPy function of their own name to slice [d,p] inside full d and p loops and '
+                              'forward every extra parameter; sum shifts a non-negative axis by the two leading (D,P) axes and a negative axis by data.ndim')
+    m = ctx.model
+    for name, (fn, extra) in sorted(MAPS.items()):
+        fi = m.lookup_method('UTPM', name)
+        if fi is None:
+            r.unknown('UTPM.' + name, 'vanished')
+            continue
+        calls = [c for c in walk_no_nested(fi.node) if isinstance(c, ast.Call) and dotted_name(c.func) == fn]
+        inner = []
+        for lp in walk_no_nested(fi.node):
+            if isinstance(lp, ast.For) and norm(lp.iter) == 'range(D)':
+                for lp2 in lp.body:
+                    if isinstance(lp2, ast.For) and norm(lp2.iter) == 'range(P)':
+                        inner.extend(c for c in ast.walk(lp2) if isinstance(c, ast.Call) and dotted_name(c.func) == fn)
+        probs = []
+        if not inner:
+            probs.append('%s is not applied inside `for d in range(D): for p in range(P)`' % fn)
+        for c in inner:
+            if not (c.args and isinstance(c.args[0], ast.Subscript) and norm(c.args[0].slice).replace(' ', '') in ('(d,p)', '(d,p,...)')):
+                probs.append('%s is not applied to slice [d, p]: `%s`' % (fn, norm(c)[:60]))
+            used = {x.id for x in ast.walk(c) if isinstance(x, ast.Name)}
+            for e in extra:
+                if e not in used:
+                    probs.append('parameter `%s` is not forwarded to %s' % (e, fn))
+        if probs:
+            for pm in probs:
+                r.bad(Finding('C13.map', _f(fi), name + ':' + pm[:50], 'UTPM.%s: %s' % (name, pm), fi.file, fi.lineno))
+        else:
+            r.ok(construct=name, nontrivial=True, sample='UTPM.%s: `%s` for every (d, p)' % (name, norm(inner[0])[:70]))
+    # sum / pb_sum axis shift
+    for name in ('sum', 'pb_sum'):
+        fi = m.lookup_method('UTPM', name)
+        if fi is None:
+            continue
+        ifs = [n for n in walk_no_nested(fi.node) if isinstance(n, ast.If) and norm(n.test) == 'axis < 0']
+        if len(ifs) != 1:
+            r.unknown(fi.site(), 'axis normalisation `if axis < 0` not found')
+            continue
+        neg = [s for s in ifs[0].body if isinstance(s, ast.Assign)]
+        pos = [s for s in ifs[0].orelse if isinstance(s, ast.Assign)]
+        okn = len(neg) == 1 and isinstance(neg[0].value, ast.BinOp) and isinstance(neg[0].value.op, ast.Add) \
+            and {norm(neg[0].value.left), norm(neg[0].value.right)} in ({'self.data.ndim', 'axis'}, {'x.data.ndim', 'axis'})
+        okp = len(pos) == 1 and isinstance(pos[0].value, ast.BinOp) and isinstance(pos[0].value.op, ast.Add) \
+            and {norm(pos[0].value.left), norm(pos[0].value.right)} == {'axis', '2'}
+        if okn and okp:
+            r.ok(construct=name + ':axis', nontrivial=True, sample='UTPM.%s: `%s` / `%s`' % (name, norm(neg[0]), norm(pos[0])))
+        else:
+            r.bad(Finding('C13.map', _f(fi), name + ':axis', 'UTPM.%s does not shift the axis by data.ndim (negative) / 2 (non-negative): %s / %s'
+                          % (name, [norm(s) for s in neg], [norm(s) for s in pos]), fi.file, ifs[0].lineno))
+    # whole-array maps
+    for name, fn in (('conjugate', 'numpy.conjugate'),):
+        fi = m.lookup_method('UTPM', name)
+        if fi is not None and 'return UTPM(%s(self.data))' % fn in norm(fi.node):
+            r.ok(construct=name, sample='UTPM.%s applies %s to the whole coefficient array' % (name, fn))
+        elif fi is not None:
+            r.bad(Finding('C13.map', _f(fi), name, 'UTPM.%s does not apply %s to the whole data array' % (name, fn), fi.file, fi.lineno))
+    r.floor = 8
+    return r
+
+
+# ----- symvec family: enumerate the index structure of the loop nests (N = 4)
+def _enumerate_pairs(fi, body, N=4):
+    """interpret `for v in range(a, b)` nests, `count = 0`, `count += 1`; record, for every statement
+    that mentions `count` in a subscript, the value of count and of every other integer-subscript tuple"""
+    events = []
+    env = {'N': N, 'M': N}
+
+    def ev(e):
+        if isinstance(e, ast.Constant):
+            return e.value
+        if isinstance(e, ast.Name):
+            return env[e.id]
+        if isinstance(e, ast.BinOp):
+            a, b = ev(e.left), ev(e.right)
+            if isinstance(e.op, ast.Add):
+                return a + b
+            if isinstance(e.op, ast.Sub):
+                return a - b
+        raise KeyError(norm(e))
+
+    def run(stmts):
+        for st in stmts:
+            if isinstance(st, ast.For) and isinstance(st.iter, ast.Call) and norm(st.iter.func) == 'range' and isinstance(st.target, ast.Name):
+                a = [ev(x) for x in st.iter.args]
+                rng = range(*a)
+                for v in rng:
+                    env[st.target.id] = v
+                    run(st.body)
+            elif isinstance(st, ast.Assign) and len(st.targets) == 1 and isinstance(st.targets[0], ast.Name) and isinstance(st.value, ast.Constant):
+                env[st.targets[0].id] = st.value.value
+            elif isinstance(st, ast.AugAssign) and isinstance(st.target, ast.Name) and st.target.id == 'count':
+                env['count'] = env['count'] + ev(st.value)
+            else:
+                subs = [n for n in ast.walk(st) if isinstance(n, ast.Subscript)]
+                cnt = None
+                pairs = []
+                for sb in subs:
+                    sl = sb.slice
+                    try:
+                        if isinstance(sl, ast.Name) and sl.id == 'count':
+                            cnt = env['count']
+                        elif isinstance(sl, ast.Tuple) and len(sl.elts) == 2:
+                            pairs.append((ev(sl.elts[0]), ev(sl.elts[1])))
+                    except KeyError:
+                        pass
+                if cnt is not None and pairs:
+                    events.append((cnt, tuple(sorted(set(pairs)))))
+    run(body)
+    return events
+
+
+def rule_sym(ctx):
+    r = RuleResult('C13.sym', 'symvec / vecsym and their pullbacks enumerate the index pairs of the symmetric matrix in the same order with '
+                              'one vector position per pair (sibling agreement, decided by enumerating the loop-nest index structure for N=4)')
+    m = ctx.model
+    def branches(fi):
+        out = {}
+        for n in walk_no_nested(fi.node):
+            if isinstance(n, ast.If) and isinstance(n.test, ast.Compare) and norm(n.test.left) == 'UPLO':
+                cur = n
+                while True:
+                    key = norm(cur.test.comparators[0]).strip("'\"")
+                    out[key] = cur.body
+                    if len(cur.orelse) == 1 and isinstance(cur.orelse[0], ast.If) and isinstance(cur.orelse[0].test, ast.Compare) and norm(cur.orelse[0].test.left) == 'UPLO':
+                        cur = cur.orelse[0]
+                    else:
+                        break
+                break
+        return out
+    try:
+        sv = m.func('algopy.utils', 'symvec')
+        vs = m.func('algopy.utils', 'vecsym')
+        uvs = m.lookup_method('UTPM', 'vecsym')
+        pbs = m.lookup_method('UTPM', 'pb_symvec')
+        pbv = m.lookup_method('UTPM', 'pb_vecsym')
+    except AnalysisError as e:
+        r.unknown(e.site, e.reason)
+        return r
+    fam = {}
+    for key, body in branches(sv).items():
+        fam['symvec:' + key] = _enumerate_pairs(sv, body)
+    for key, body in branches(pbs).items():
+        fam['pb_symvec:' + key] = _enumerate_pairs(pbs, body)
+    fam['vecsym'] = _enumerate_pairs(vs, vs.node.body)
+    fam['UTPM.vecsym'] = _enumerate_pairs(uvs, uvs.node.body)
+    fam['pb_vecsym'] = _enumerate_pairs(pbv, pbv.node.body)
+    def canon(ev):
+        # count -> unordered index pair
+        d = {}
+        for cnt, pairs in ev:
+            d.setdefault(cnt, set()).update(tuple(sorted(p)) for p in pairs)
+        return {k: tuple(sorted(v)) for k, v in d.items()}
+    full = [(a, b) for a in range(4) for b in range(a, 4)]
+    want = {i: (p,) for i, p in enumerate(full)}
+    for k in ('symvec:F', 'pb_symvec:F', 'vecsym', 'UTPM.vecsym', 'pb_vecsym'):
+        if k not in fam or not fam[k]:
+            r.unknown(k, 'loop nest not recognised')
+            continue
+        c = canon(fam[k])
+        if c == want:
+            r.ok(construct=k, nontrivial=True, sample='%s: position k <-> pair %s ...' % (k, [c[i][0] for i in range(4)]))
+        else:
+            r.bad(Finding('C13.sym', k, 'enumeration', '%s enumerates the pairs of the symmetric matrix as %s, expected row-wise upper-triangular order %s'
+                          % (k, [c.get(i) for i in range(6)], full[:6]), 'algopy/utils.py', 0))
+    for u in ('L', 'U'):
+        a, b = fam.get('symvec:' + u), fam.get('pb_symvec:' + u)
+        if not a or not b:
+            r.unknown('symvec:' + u, 'branch not recognised')
+            continue
+        # exact (ordered) pairs must agree between forward and pullback
+        if [(c, p) for c, p in a] == [(c, p) for c, p in b]:
+            r.ok(construct='UPLO=' + u, nontrivial=True, sample="symvec/pb_symvec UPLO='%s': %s ..." % (u, a[:3]))
+        else:
+            r.bad(Finding('C13.sym', 'algopy.utpm.utpm:UTPM.pb_symvec', 'UPLO=' + u, "pb_symvec and symvec disagree on the entry <-> position map for UPLO='%s': %s vs %s"
+                          % (u, b[:4], a[:4]), 'algopy/utpm/utpm.py', 0))
+    r.floor = 7
+    return r
+
+
+def rule_alloc(ctx):
+    r = RuleResult('C13.alloc', 'zeros/ones with a Taylor-polynomial dtype allocate (D,P)+shape with (D,P) taken from the dtype object; ones sets '
+                                'coefficient 0 only; zeros_like/ones_like delegate with the array\'s shape')
+    m = ctx.model
+    for name in ('zeros', 'ones'):
+        fi = m.func('algopy.globalfuncs', name)
+        br = [n for n in walk_no_nested(fi.node) if isinstance(n, ast.If)]
+        body = None
+        for n in ast.walk(fi.node):
+            if isinstance(n, ast.If) and norm(n.test) == 'isinstance(dtype, UTPM)':
+                body = n.body
+        if body is None:
+            r.unknown(fi.site(), 'UTPM-dtype branch not found')
+            continue
+        txt = ' ; '.join(norm(s) for s in body)
+        probs = []
+        if 'D, P = dtype.data.shape[:2]' not in txt:
+            probs.append('(D, P) is not taken from dtype.data.shape[:2]')
+        if 'numpy.zeros((D, P) + shape' not in txt:
+            probs.append('the coefficient array is not allocated as numpy.zeros((D, P) + shape, ...)')
+        if name == 'ones':
+            st = [s for s in body if isinstance(s, ast.Assign) and isinstance(s.targets[0], ast.Subscript)]
+            if not (len(st) == 1 and _first_index_is_zero(st[0].targets[0]) and isinstance(st[0].value, ast.Constant) and st[0].value.value == 1):
+                probs.append('ones does not set exactly coefficient 0 to 1')
+        if probs:
+            for pm in probs:
+                r.bad(Finding('C13.alloc', _f(fi), name + ':' + pm[:40], '%s with a UTPM dtype: %s' % (name, pm), fi.file, fi.lineno))
+        else:
+            r.ok(construct=name, sample='%s(UTPM dtype): %s' % (name, txt[:100]))
+    for name, tgt in (('zeros_like', 'zeros'), ('ones_like', 'ones')):
+        fi = m.func('algopy.globalfuncs', name)
+        if 'return %s(a.shape, dtype=dtype, order=order)' % tgt in norm(fi.node):
+            r.ok(construct=name, sample='%s delegates to %s(a.shape, dtype=dtype, order=order)' % (name, tgt))
+        else:
+            r.bad(Finding('C13.alloc', _f(fi), name, '%s does not delegate to %s with the array\'s shape' % (name, tgt), fi.file, fi.lineno))
+    r.floor = 4
+    return r
